@@ -24,7 +24,7 @@ KINDS_3 = ["ok", "rid+1", "rid-1", "rid0", "ridneg", "rid+2^32", "rid-2^32", "st
 ECHO = {"echo_get": B.PDU_GET, "echo_next": B.PDU_GETNEXT, "echo_bulk": B.PDU_GETBULK}
 # only in the random scripts (the exhaustive part is quadratic in the number of kinds): credentials that differ from the
 # session's by a tail of exactly 256 / 512 octets - equal for code that compares lengths in a u8 / prefix only
-KINDS_EXTRA = ["user+256", "user+512", "engine+256", "comm+256", "comm+512"]
+KINDS_EXTRA = ["user+256", "user+512", "engine+256", "comm+256", "comm+512", "rid+1_f4", "stale_f4"]
 T_SHORT = 0.25
 
 
@@ -114,6 +114,13 @@ class Script:
                 # what a discovery Report's header looks like, around an ordinary answer
                 ov.update(user=b"", flags=4 if k.endswith("f4") else 0, mac="empty", encrypt=False)
                 d["creds"] = False
+            elif k in ("rid+1_f4", "stale_f4"):
+                # a Response with a foreign request-id whose msgFlags also carry the reportable bit (0x04): the bit says
+                # nothing about the PDU being a Report
+                if req.version != 3:
+                    continue
+                d["rid"] = (req.request_id + 1) & 0x7FFFFFFF if k == "rid+1_f4" else (prev[0] if prev else (req.request_id ^ 0x1111))
+                ov["flags"] = (req.m["flags"] & 3) | 4
             elif k in KINDS_EXTRA:
                 n = int(k.split("+")[1])
                 d["creds"] = False
